@@ -154,6 +154,13 @@ pub fn jobs(tier: Tier) -> Vec<Job> {
         };
         v.push(pipeline_job("c01-depth", c, &RunCfg::parallel(2), FOCUS_ATTEMPT, b, true));
     }
+    // the same windows under the sticky cost model (one deviation keeps a thread away)
+    for c in &deep_blocks(spec) {
+        v.push(pipeline_job("c01-sticky", c, &RunCfg::parallel(2), STICKY_VALIDATION, if tier == Tier::Quick { 3 } else { 4 }, true));
+    }
+    for c in [blocks::funding_chain(spec, 2), super::c04::gate_driver(spec, false).case] {
+        v.push(pipeline_job("c01-sticky", &c, &RunCfg::parallel(2), STICKY_ATTEMPT, if tier == Tier::Quick { 3 } else { 4 }, true));
+    }
     match tier {
         Tier::Quick => {
             v.extend(sweep_jobs("c01-sweep", 2, &[SpecId::BERLIN, SpecId::CANCUN, SpecId::PRAGUE], &[1, 2], &[false, true], 1, true));
